@@ -108,14 +108,16 @@ const CbBase = 100000 // tx id of block b's coinbase = CbBase + b (as in Ledger.
 
 // script types (st)
 const (
-	StP2SH   = 1 // P2SH of <tag> DROP 1
-	StP2WSH  = 2 // P2WSH of <tag> DROP 1
-	StBare   = 3 // <tag> DROP DEPTH 0 EQUAL   (non-standard)
-	StP2PKH  = 4
-	StP2WPKH = 5
-	StP2TR   = 6 // never spent by a scenario
-	StSigops = 7 // addr x OP_CHECKSIG, zero value, never spent
-	StRetSig = 8 // OP_RETURN followed by addr x OP_CHECKSIG (the legacy sigop count does not stop at OP_RETURN)
+	StP2SH     = 1 // P2SH of <tag> DROP 1
+	StP2WSH    = 2 // P2WSH of <tag> DROP 1
+	StBare     = 3 // <tag> DROP DEPTH 0 EQUAL   (non-standard)
+	StP2PKH    = 4
+	StP2WPKH   = 5
+	StP2TR     = 6  // never spent by a scenario
+	StSigops   = 7  // addr x OP_CHECKSIG, zero value, never spent
+	StRetSig   = 8  // OP_RETURN followed by addr x OP_CHECKSIG (the legacy sigop count does not stop at OP_RETURN)
+	StP2SHSig  = 9  // P2SH whose redeem script holds addr x OP_CHECKSIG in a branch that is never executed
+	StP2WSHSig = 10 // P2WSH with the same script as its witness script
 )
 
 // ------------------------------------------------------------------ the world: real objects for every abstract id
@@ -148,6 +150,14 @@ func innerScript(addr int) []byte {
 	return append(append([]byte{4}, tag(addr)...), opDROP, btc.OP_1)
 }
 
+// sigScript is an anyone-can-spend script that holds k OP_CHECKSIG in its dead branch (k <= 190: the limit of 201
+// counted operations per script applies to dead branches as well).
+func sigScript(k int) []byte {
+	s := append(append([]byte{4}, tag(k)...), opDROP, btc.OP_1, 0x63 /*OP_IF*/, btc.OP_1, 0x67 /*OP_ELSE*/)
+	s = append(s, bytes.Repeat([]byte{btc.OP_CHECKSIG}, k)...)
+	return append(s, 0x68 /*OP_ENDIF*/)
+}
+
 func privKey(addr int) []byte {
 	h := sha256.Sum256([]byte(fmt.Sprint("vfkey", addr)))
 	return h[:]
@@ -178,6 +188,10 @@ func PkScript(addr, st int) []byte {
 		return append([]byte{0, 20}, hash160(pub)...)
 	case StP2TR:
 		return append([]byte{btc.OP_1, 32}, sha2([]byte(fmt.Sprint("vftap", addr)))...)
+	case StP2SHSig:
+		return append(append([]byte{btc.OP_HASH160, 20}, hash160(sigScript(addr))...), btc.OP_EQUAL)
+	case StP2WSHSig:
+		return append([]byte{0, 32}, sha2(sigScript(addr))...)
 	case StSigops:
 		return bytes.Repeat([]byte{btc.OP_CHECKSIG}, addr)
 	case StRetSig:
@@ -271,8 +285,14 @@ func (w *World) buildTx(t int) *btc.Tx {
 		switch o.St {
 		case StP2SH:
 			tx.TxIn[i].ScriptSig = pushData(innerScript(addr))
-		case StP2WSH:
+		case StP2WSH, StP2WSHSig:
 			anyWit = true
+		case StP2SHSig:
+			if in.Ok {
+				tx.TxIn[i].ScriptSig = pushData(sigScript(o.Addr))
+			} else {
+				tx.TxIn[i].ScriptSig = pushData(innerScript(addr))
+			}
 		case StBare:
 			if !in.Ok {
 				tx.TxIn[i].ScriptSig = []byte{btc.OP_1}
@@ -304,6 +324,12 @@ func (w *World) buildTx(t int) *btc.Tx {
 		switch o.St {
 		case StP2WSH:
 			tx.SegWit[i] = [][]byte{innerScript(addr)}
+		case StP2WSHSig:
+			if in.Ok {
+				tx.SegWit[i] = [][]byte{sigScript(o.Addr)}
+			} else {
+				tx.SegWit[i] = [][]byte{innerScript(addr)}
+			}
 		case StP2PKH:
 			pub := btc.PublicFromPrivate(privKey(o.Addr), true)
 			if e := tx.Sign(i, PkScript(o.Addr, o.St), 1, pub, privKey(addr)); e != nil {
